@@ -143,9 +143,28 @@ class Body:
         return self.locals[l]["name"] or "_%d" % l
 
 
+# canonical path -> actual path of the private helpers that were located by role in this process (evidence)
+RENAMED = {}
+
+
 class Program:
-    def __init__(self, repo=None, variant="lib"):
+    def __init__(self, repo=None, variant="lib", resolve_roles=True):
         self.dir, self.crates = _facts.load(repo or _facts.REPO, variant)
+        self.renamed, self.unresolved_roles = {}, []
+        self._build()
+        if resolve_roles:
+            # private helpers are located by role, not by path (see roles.py): a renamed / moved helper is
+            # given its canonical path before any rule looks at the program
+            from . import roles
+
+            found, self.unresolved_roles = roles.discover(self)
+            if found:
+                self.crates = roles.rewrite(self.crates, found)
+                self.renamed = found
+                RENAMED.update(found)
+                self._build()
+
+    def _build(self):
         self.bodies = {}
         self.by_crate = collections.defaultdict(list)
         for cname, data in self.crates.items():
